@@ -124,14 +124,6 @@ def canon_temps(s):
     return re.sub(r"__dt(\d+)", rep, s)
 
 
-def block_with_let(t):
-    if isinstance(t, list) and t:
-        if t[0] == "block" and isinstance(t[1], list) and t[1] and t[1][0] == "let":
-            return True
-        return any(block_with_let(x) for x in t[1:])
-    return False
-
-
 def dsp_body_program(st1):
     """from the expanded program (let ... (let dsp (lam () rt body) (tuple))) build `lets...; body` so that the model's
     evaluator can run one call of dsp; None when the shape is different"""
@@ -259,11 +251,6 @@ def run(ck):
                 if va and vb and va.startswith("num:") and vb.startswith("num:"):
                     if (va[4:], vb[4:]) == (a["vm"][0], b["vm"][0]):
                         stats["model_capture_reproduced"] += 1
-                    elif block_with_let(c09.parse(a.get("st1") or "()")):
-                        # the core language lets a `let` inside a `{ }` block stay visible after the block (mirgen
-                        # add_bind_pattern never pops; reproduced without any macro: { let q = 5.0 q*2.0 } + sq(q));
-                        # the model's evaluator scopes blocks lexically, so this capture is not predicted by it
-                        stats["capture_through_block_scope_leak_not_modelled"] = stats.get("capture_through_block_scope_leak_not_modelled", 0) + 1
                     else:
                         disagreements.append(("the model evaluates the captured expansion differently", dict(replay, model_values=[va, vb])))
             else:
